@@ -194,6 +194,13 @@ def scenarios(tier):
         sc("s1_r1_nested_pre3_post", 1, 1, 1, 1, 3, ["--nested", 1, "--preempt", 1, "--post-points"]),
     ]
     q.append(sc("s2x1_r1x6_pre4_p3", 2, 1, 1, 6, 4, ["--preempt", 3]))
+    # two sends overlapping in enqueue(full) (other thread / nested) followed by enough receives to
+    # meet whatever they left in the queue word
+    q.append(sc("s2x1_r1x3_p2", 2, 1, 1, 3, 0, ["--preempt", 2]))
+    # many spurious weak-CAS failures against one operation: it must keep retrying, not give up
+    q.append(sc("s1x1_spurious8", 1, 1, 0, 0, 0, ["--preempt", 0], spur=8))
+    q.append(sc("r1x1_pre1_spurious8", 0, 0, 1, 1, 1, ["--preempt", 0], spur=8))
+    q.append(sc("s1_r1x3_nested_send_pre1", 1, 1, 1, 3, 1, ["--nested", 1, "--preempt", 1]))
     # a send nested in the first of 7 receives on a full channel: what it leaves behind is met by the
     # later receives (a slot named by `full` whose cell is empty panics only when its turn comes)
     q.append(sc("r1x7_nested_full", 0, 0, 1, 7, 5, ["--nested", 1, "--preempt", 0, "--post-points"]))
